@@ -42,7 +42,7 @@ def httpDate (unixSec : Int) : Str :=
 /-- FixDateHeader -/
 def fixDateHeader (g : Glue) (h : Header) (receivedAt : Int) : Header :=
   match timeOf g (Header.get h sDate) with
-  | some t => if t = zeroTimeNs then Header.set h sDate (httpDate (receivedAt / nsPerSec)) else h
+  | some _ => h   -- also a Date that parses to Go's zero time: a valid date of a very old response
   | none => Header.set h sDate (httpDate (receivedAt / nsPerSec))
 
 /-! ### hop-by-hop -/
